@@ -494,10 +494,10 @@ for _pid, _nt, _txt, _tech in [
     ("C38", "a successful delete", "Effect and frame condition of Delete.", "TLC evaluates effect (target and attached connections gone, children hoisted, later parallel connections renumbered, attribute reset) + frame condition of Delete on the snapshots"),
     ("C39", "a successful rename or move", "Effect and frame condition of Rename, Move and ReconnectEdge.", "TLC evaluates that all identities survive with their content, only the moved object (and descendants when requested) change ID, connections keep their end identities"),
     ("C40", "a successful edit whose ID deltas were queried beforehand", "Agreement of the *IDDeltas predictions with the edit.", "the delta map is queried before the edit; TLC checks id_after = delta(id_before) for every surviving identity and no delta for a removed one")]:
-    PROPS[_pid] = dict(family="oracle", level="model_checking", design_ref="4.5", technique=_tech, rule=_or_rule + _nt + ".", exhaustive=dict(quick=False, thorough=True),
+    PROPS[_pid] = dict(family="oracle", level="exploration", design_ref="4.5", technique=_tech, rule=_or_rule + _nt + ".", exhaustive=dict(quick=False, thorough=True),
                        assumptions=_or_assume, text=_txt + " One action per public API call in TraceD2Oracle.tla; the state space explored is the set of recorded histories (no separate base model).",
                        note="Trusted: TLC, Json module, the snapshot code in harness/cmd/vdrive/oracle.go.")
-PROPS["C41"] = dict(family="oracle_boards", level="model_checking", design_ref="4.5",
+PROPS["C41"] = dict(family="oracle_boards", level="exploration", design_ref="4.5",
                     technique="edits addressed to the root, layers l1/l2, scenarios s1/s2 and steps s1/1, s1/2; TLC checks that every board that neither is nor inherits from the addressed board keeps its projection digest, for successful and refused edits",
                     rule=_or_rule.replace("applies 1 + i mod 8 edits", "adds two layers, two scenarios and two steps, then applies 1 + i mod 8 edits, each addressed to a random board,") + "an edit was attempted.",
                     exhaustive=dict(quick=False, thorough=True), assumptions=_or_assume + ["heirs of a board: boards nested in it and, for a step, the other steps of the same parent"],
@@ -524,7 +524,7 @@ _ps_rule = ("the input space is FIXED (input #i from seed i, 9900 inputs; quick 
 PROPS["C01"] = dict(family="parse", level="exploration", design_ref="5", technique="totality monitor in TLA+ over call/return events of the four parser entry points: returned, no panic, no timeout (20 s), a tree (Parse: always) or errors, errors positioned",
                     rule=_ps_rule + "every input.", exhaustive=dict(quick=False, thorough=True), assumptions=["ParseKey/ParseMapKey/ParseValue return nil together with an error; for them the contract is 'a tree or errors'"],
                     text="Parsing is a call/return stage whose guard is the totality contract.", note="Trusted: TLC, Json module, the input generators in the harness.")
-PROPS["C02"] = dict(family="parse", level="model_checking", design_ref="4.6", technique="TLA+ definition PosAt of line/column/offset after k runes in UTF-8 bytes and in UTF-16 units; TLC checks every node and error range of the real parser's trees against it (inside the input, start <= end, nested in the parent, triple = PosAt(k) for some k), plus re-parsing of key segment texts",
+PROPS["C02"] = dict(family="parse", level="exploration", design_ref="4.6", technique="TLA+ definition PosAt of line/column/offset after k runes in UTF-8 bytes and in UTF-16 units; TLC checks every node and error range of the real parser's trees against it (inside the input, start <= end, nested in the parent, triple = PosAt(k) for some k), plus re-parsing of key segment texts",
                     rule=_ps_rule + "inputs of at most 300 runes that are not UTF-16 encoded (their rune table is logged).", exhaustive=dict(quick=False, thorough=True),
                     assumptions=["AST nodes are found by reflection: every struct with a Range field; parent = closest enclosing such struct", "the segment-text clause is checked for inputs that parse without errors", "the reader machine (read/peek/commit/rewind/replay) itself is not traced: no hooks in d2parser"],
                     text="PosAt is the specification of positions; the parser's reported ranges are validated against it for every generated input in both modes.", note="Trusted: TLC, Json module, the reflective AST walk.")
@@ -542,7 +542,7 @@ def corrupt_attrs(lines, pid):
 
 
 FAMILIES["attrs"] = dict(vdrive="attrs", trace_module="TraceD2Attrs", trace_cfg="TraceD2Attrs.cfg", corrupt=corrupt_attrs, engine="TraceD2Attrs", args={"table": _os.path.join(_os.path.dirname(_os.path.dirname(_os.path.abspath(__file__))), "specs", "attr_domains.json")}, chunk=4000, heap="3g")
-PROPS["C16"] = dict(family="attrs", level="model_checking", design_ref="4.7",
+PROPS["C16"] = dict(family="attrs", level="exploration", design_ref="4.7",
                     technique="domain table in TLA+ (specs/attr_domains.json read by TraceD2Attrs.tla: kind, bounds or enumeration of 40 attributes/style keywords/configuration keys); TLC decides InDomain for the lexical description of every generated value and checks accepted <=> InDomain, accepted value unchanged, rejection reported inside the declaration, on the verdicts of the real d2compiler.Compile",
                     rule=("for each of the 40 table entries and each context it applies to (object, connection, arrowhead, d2-config): the boundary values lo-1, lo, lo+1, hi-1, hi, hi+1, signed/zero-padded/overflowing/decimal/exponent/hex spellings, NaN/Inf, "
                           "every member of an enumeration in lower, upper and capitalised case plus near misses, named/hex/gradient colour forms and malformed ones, booleans in any case and look-alikes, 11 garbage strings, and seeded random values inside and outside the range "
